@@ -80,6 +80,17 @@ CHECKS = {
              "of the spelling is C17's subject); library references compare by first-occurrence index in the plain form",
         technique="bounded-exhaustive enumeration of documents, blocks and spellings with a differential round-trip "
                   "oracle"),
+    "C09": dict(
+        level="exploration", engine="E7", ref="DESIGN.md section 4 C09",
+        text="shipped examples, documents spliced from prefix-tree blocks (splits, terminals, pseudo pushes, stores) "
+             "and grammar documents x option sets run through gasol_asm.execute_gasol; an independent reader checks "
+             "metadata equality, per-block skeleton equality (every tag/JUMPDEST/jump/terminal/splitting instruction "
+             "with all fields), well-formedness of every emitted item, and that the tool re-reads its output to the "
+             "same value",
+        note="trusted base: mc/docs.py + mc/asm_ref.py; hex case of PUSH constants is not constrained; streams the "
+             "tool does not parse (assemblies nested two levels) must be byte-identical",
+        technique="bounded-exhaustive enumeration of input documents x configurations with an independent "
+                  "reader as oracle"),
 }
 
 NOT_YET = "check not built yet in this session (planned in DESIGN.md section 4); nothing is claimed for it"
